@@ -56,7 +56,7 @@ MUTANTS = [
     (
         "s2f33-delete-one-keeps-links",
         F,
-        "                        self._registered_collection_events[collection_event].reports.remove(report.RPTID)\n",
+        "                        reports[:] = [rptid for rptid in reports if rptid != report.RPTID]\n",
         "                        pass\n",
     ),
     # 9. non-transactional multi-report define: only the first report is pre-checked
@@ -87,5 +87,11 @@ MUTANTS = [
         F,
         "            if report.RPTID in self._registered_reports and len(report.VID) > 0:\n                drack = secsgem.secs.data_items.DRACK.RPTID_REDEFINED\n            else:\n",
         "            if False:\n                drack = secsgem.secs.data_items.DRACK.RPTID_REDEFINED\n            else:\n",
+    ),
+    (
+        "revert-remove-all-occurrences",
+        F,
+        "                        reports[:] = [rptid for rptid in reports if rptid != report.RPTID]\n",
+        "                        reports.remove(report.RPTID)\n",
     ),
 ]
